@@ -2,6 +2,7 @@
 import json
 import os
 import random
+import re
 
 from lib import common as C
 from lib import c10c11 as L
@@ -190,7 +191,9 @@ Definition strip (r : route) : route :=
   {| r_channel := []; r_path := r_path r; r_methods := r_methods r; r_hosts := r_hosts r; r_headers := r_headers r;
      r_header_exists := r_header_exists r; r_query := r_query r; r_query_exists := r_query_exists r; r_remote := r_remote r; r_targets := r_targets r |}.
 (* index; status when unresolved; routes whose path matches; index if channels were ignored; Allow value *)
-Definition run (rs : list route) (q0 : request) (remote : bytes) : list N :=
+(* one number per case (fast to print): base-256 digits 1, idx, status code, #path matches, idx ignoring channels, Allow bytes *)
+Definition pack (l : list N) : N := fold_left (fun acc x => acc * 256 + x) l 1.
+Definition run (rs : list route) (q0 : request) (remote : bytes) : N :=
   let q := set_remote q0 remote in
   let p := ingress_request_path (q_url_path q) in
   let idx := resolve_index parse rs q p 0 in
@@ -198,7 +201,7 @@ Definition run (rs : list route) (q0 : request) (remote : bytes) : list N :=
   let st := if idx =? 0 then (match al with [] => 404 | _ => 405 end) else 0 in
   let np := N.of_nat (List.length (filter (fun r => match_path p (r_path r)) rs)) in
   let idx_nochan := resolve_index parse (map strip rs) q p 0 in
-  idx :: st :: np :: idx_nochan :: (match al with [] => [] | _ => join comma_space al end).
+  pack (idx :: (if st =? 404 then 1 else if st =? 405 then 2 else 0) :: N.min np 255 :: idx_nochan :: (match al with [] => [] | _ => join comma_space al end)).
 Definition reqs : list request := [%(reqs)s].
 Definition remotes : list bytes := [%(remotes)s].
 """
@@ -220,6 +223,38 @@ def classify(route, other):
         if r["methods"]:
             tags.add("method")
     return "+".join(sorted(tags)) or "path-only"
+
+
+def judge(m, routes, row, new):
+    """compare one model row with what the implementation did; returns (problems, key, expected)"""
+    idx, st, allow = m[0], m[1], bytes(m[4:]).hex()
+    problems, key = [], None
+    if idx > 0:
+        r = routes[idx - 1]
+        want = sorted((r["path"], t) for t in (r["targets"] or [L.hx("pull")]))
+        exp = {"route": L.show(r["path"]), "status": 202, "enqueued": [[L.show(a), L.show(b)] for a, b in want]}
+        if row["status"] != 202 or sorted(new) != want:
+            got_routes = sorted({a for a, _ in new})
+            other = next((x for x in routes if got_routes and x["path"] == got_routes[0]), None)
+            problems.append("model resolves to route #%d %s; implementation answered %s and enqueued on %s" % (
+                idx, L.show(r["path"]), row["status"], [L.show(x) for x in got_routes]))
+            key = "wrong-route:" + classify(r, other)
+    else:
+        exp = {"route": None, "status": st, "allow": L.show(allow) if st == 405 else None, "enqueued": []}
+        if new:
+            got_routes = sorted({a for a, _ in new})
+            other = next((x for x in routes if x["path"] == got_routes[0]), None)
+            problems.append("no route matches in the model but the implementation enqueued on %s (status %s)" % ([L.show(x) for x in got_routes], row["status"]))
+            key = "unmatched-request-enqueued:" + classify(other, None)
+        elif row["status"] != st:
+            problems.append("no route matches: model status %d, implementation %d" % (st, row["status"]))
+            key = "status-%d-vs-%d" % (st, row["status"])
+        else:
+            want_allow = [allow] if st == 405 else []
+            if (row["allow"] or []) != want_allow:
+                problems.append("Allow header: model %s, implementation %s" % ([L.show(a) for a in want_allow], [L.show(a) for a in row["allow"] or []]))
+                key = "allow-header"
+    return problems, key, exp
 
 
 def gen_strings(rng, n, seen_paths, seen_hosts):
@@ -308,27 +343,43 @@ def main(ctx, replay):
     # ---- distinct seen requests / remotes
     req_index, req_list = {}, []
     rem_index, rem_list = {}, []
-    cases = []   # per config: list of (row index, req idx, remote idx)
+    cases = []   # per config: list of (row index, req idx, remote idx); alternatives appended at the end
+    alt_pos = []
     bad_cfg = 0
+
+    def intern_req(s):
+        key = C.sha({k: s[k] for k in ("method", "path", "host", "headers", "query")})
+        if key not in req_index:
+            req_index[key] = len(req_list)
+            req_list.append(s)
+        return req_index[key]
+
     for ci, co in enumerate(cfg_out):
         lst = []
         if not co["ok"]:
             bad_cfg += 1
             cases.append(lst)
+            alt_pos.append({})
             continue
         for ri, row in enumerate(co["rows"]):
             s = row["seen"]
             if s is None:
                 continue
-            key = C.sha({k: s[k] for k in ("method", "path", "host", "headers", "query")})
-            if key not in req_index:
-                req_index[key] = len(req_list)
-                req_list.append(s)
             if s["remote"] not in rem_index:
                 rem_index[s["remote"]] = len(rem_list)
                 rem_list.append(s["remote"])
-            lst.append((ri, req_index[key], rem_index[s["remote"]]))
-        cases.append(lst)
+            lst.append((ri, intern_req(s), rem_index[s["remote"]]))
+        # "name.:port": normalizeHost strips the dot before the port, so the dot survives. The statement does not
+        # fix the normal form; both readings are accepted (the as-written one is the model, the other the alternative).
+        alts = []
+        for (ri, qi, mi) in lst:
+            h = L.unhx(req_list[qi]["host"])
+            ah = re.sub(rb"\.(:[^:\]]*)$", rb"\1", h)
+            if ah != h:
+                s2 = dict(req_list[qi], host=ah.hex())
+                alts.append((ri, intern_req(s2), mi))
+        alt_pos.append({ri: len(lst) + k for k, (ri, _, _) in enumerate(alts)})
+        cases.append(lst + alts)
     if bad_cfg > n_cfg // 4:
         raise RuntimeError("generator produced %d/%d configurations that do not compile, e.g. %s" % (
             bad_cfg, n_cfg, [c.get("errors") for c in cfg_out if not c["ok"]][:2]))
@@ -360,7 +411,12 @@ def main(ctx, replay):
             if rows is None or len(rows) != len(cases[ci]):
                 model_fail.append("could not parse out%d" % ci)
                 continue
-            model[ci] = rows
+            dec = []
+            for v in rows:
+                bs = list(v.to_bytes((v.bit_length() + 7) // 8, "big"))[1:]
+                bs[1] = {0: 0, 1: 404, 2: 405}[bs[1]]
+                dec.append(bs)
+            model[ci] = dec
     proof_broken = C.proof_status(info, "C10")
     if model_fail and not proof_broken:
         raise RuntimeError("model evaluation failed: " + model_fail[0])
@@ -380,7 +436,9 @@ def main(ctx, replay):
         routes = co["routes"]
         for r in routes:
             dist["routes_by_channel"][r["channel"] if r["channel"] in ("outbound", "internal") else "inbound"] += 1
-        seen_rows = {ri: k for k, (ri, _, _) in enumerate(cases[ci])}
+        seen_rows = {}
+        for k, (ri, _, _) in enumerate(cases[ci]):
+            seen_rows.setdefault(ri, k)
         for ri, row in enumerate(co["rows"]):
             evaluations += 1
             rq = requests[ri]
@@ -412,43 +470,23 @@ def main(ctx, replay):
             if ci not in model:
                 continue
             m = model[ci][seen_rows[ri]]
-            idx, st, npath, idx_nochan, allow = m[0], m[1], m[2], m[3], bytes(m[4:]).hex()
+            idx, st, npath, idx_nochan = m[0], m[1], m[2], m[3]
             if npath > 0:
                 nontrivial.add((ci, cases[ci][seen_rows[ri]][1], cases[ci][seen_rows[ri]][2]))
             if idx_nochan != idx:
                 dist["isolation_exercised"] += 1
-            problems = []
-            key = None
-            exp = {}
             if idx > 0:
                 dist["resolved"] += 1
-                r = routes[idx - 1]
-                want = sorted((r["path"], t) for t in (r["targets"] or [L.hx("pull")]))
-                exp = {"route": L.show(r["path"]), "status": 202, "enqueued": [[L.show(a), L.show(b)] for a, b in want]}
                 if npath > 1:
                     dist["first_match_among_several"] += 1
-                if row["status"] != 202 or sorted(new) != want:
-                    got_routes = sorted({a for a, _ in new})
-                    other = next((x for x in routes if got_routes and x["path"] == got_routes[0]), None)
-                    problems.append("model resolves to route #%d %s; implementation answered %s and enqueued on %s" % (
-                        idx, L.show(r["path"]), row["status"], [L.show(x) for x in got_routes]))
-                    key = "wrong-route:" + classify(r, other)
             else:
                 dist[str(st)] = dist.get(str(st), 0) + 1
-                exp = {"route": None, "status": st, "allow": L.show(allow) if st == 405 else None, "enqueued": []}
-                if new:
-                    got_routes = sorted({a for a, _ in new})
-                    other = next((x for x in routes if x["path"] == got_routes[0]), None)
-                    problems.append("no route matches in the model but the implementation enqueued on %s (status %s)" % ([L.show(x) for x in got_routes], row["status"]))
-                    key = "unmatched-request-enqueued:" + classify(other, None)
-                elif row["status"] != st:
-                    problems.append("no route matches: model status %d, implementation %d" % (st, row["status"]))
-                    key = "status-%d-vs-%d" % (st, row["status"])
-                else:
-                    want_allow = [allow] if st == 405 else []
-                    if (row["allow"] or []) != want_allow:
-                        problems.append("Allow header: model %s, implementation %s" % ([L.show(a) for a in want_allow], [L.show(a) for a in row["allow"] or []]))
-                        key = "allow-header"
+            problems, key, exp = judge(m, routes, row, new)
+            if problems and ri in alt_pos[ci]:
+                p2, _, _ = judge(model[ci][alt_pos[ci][ri]], routes, row, new)
+                if not p2:
+                    problems = []
+                    dist["host_dot_before_port_alternative_reading"] = dist.get("host_dot_before_port_alternative_reading", 0) + 1
             if problems:
                 mism += 1
             if problems and not isolated:
@@ -459,7 +497,7 @@ def main(ctx, replay):
             elif not problems and len(samples) < 10 and rng.random() < (0.03 if (idx > 0 or st == 405 or idx_nochan != idx) else 0.0005):
                 samples.append({"config_routes": [(mm[0], mm[1]) for mm in metas[ci]], "request": case["request"], "expected": exp})
 
-    col.flush(ctx)
+    col.flush(ctx, priority=lambda k: 0 if k.endswith("-route-served") else 1 if k.startswith("unmatched-request-enqueued") else 2 if k.startswith("wrong-route") else 3)
 
     # ---- string functions: Coq byte models vs Go
     seen_paths = sorted({s["path"] for s in req_list})
@@ -467,13 +505,22 @@ def main(ctx, replay):
     sinp = gen_strings(rng, 400 if quick else 3000, seen_paths, seen_hosts)
     n_str, smism = L.strfuncs_compare(ctx, info, sinp, "c10")
     evaluations += n_str
+    # same tolerance as above for "name.:port" (dot before the port): either normal form is accepted
+    kept = []
+    for mm in smism:
+        if mm["func"] == "normalizeHost" and re.search(rb"\.:[^:\]]*$", L.unhx(mm["input"]).strip()) and L.unhx(mm["model"]).endswith(b".") and L.unhx(mm["model"])[:-1] == L.unhx(mm["impl"]):
+            dist["host_dot_before_port_alternative_reading"] = dist.get("host_dot_before_port_alternative_reading", 0) + 1
+            continue
+        kept.append(mm)
+    smism = kept
     seen_f = {}
     for mm in smism:
         seen_f[mm["func"]] = seen_f.get(mm["func"], 0) + 1
         if seen_f[mm["func"]] > 2:
             continue
-        C.report(ctx, "strfunc:%s" % mm["func"], "Coq model of %s differs from Go on %r: model %r, Go %r" % (
-            mm["func"], mm["input"] if not isinstance(mm["input"], str) else L.show(mm["input"]), mm["model"], mm["impl"]),
+        C.report(ctx, "strfunc:%s" % mm["func"], "Coq model of %s differs from Go on %s: model %s, Go %s" % (
+            mm["func"], [L.show(x) for x in mm["input"]] if not isinstance(mm["input"], str) else L.show(mm["input"]),
+            L.show(mm["model"]) if isinstance(mm["model"], str) else mm["model"], L.show(mm["impl"]) if isinstance(mm["impl"], str) else mm["impl"]),
                  {"kind": "request", "case": mm})
 
     cov.update({
